@@ -44,6 +44,8 @@ BOUNDS = {'quick': {'orders': 'line/quad/hex 0..7, tri 0..8, tet 0..6, wedge 0..
           'thorough': {'orders': 'line/quad/hex 0..12, tri 0..19, tet 0..8, wedge 0..10', 'refinements': [0, 1, 2]}}
 ITEM_TIMEOUT = {'quick': 900, 'thorough': 7200}
 ORD = {'quick': {'line': 7, 'tri': 8, 'quad': 7, 'tet': 6, 'hex': 5, 'wedge': 5},
+       # orders requested beyond ORD up to ORD_PROBE: on the unchanged tree they are refused (counted); if a tree serves them they are judged
+       'probe': {'tet': 11, 'tri': 21},
        'thorough': {'line': 12, 'tri': 19, 'quad': 12, 'tet': 8, 'hex': 8, 'wedge': 10}}
 SEEDS = {'line': ['L3', 'L2c'], 'tri': ['T2', 'TL6', 'T3comp'], 'quad': ['Q1', 'Q2', 'Q4par', 'Qmix'], 'tet': ['K1', 'K3e'],
          'hex': ['H1', 'H2'], 'wedge': ['W2', 'W4']}
@@ -290,12 +292,15 @@ def monomial_checks(st0, m, name, lab, tier, out):
 
     def bad(what, msg, **kw):
         out.violation(sig0 + what, f"{msg} [seed {name}, variant {lab}]", case=dict(seed=name, variant=lab, **kw))
-    for n in range(0, nmax + 1):
+    nprobe = ORD['probe'].get(kind, nmax)
+    for n in list(range(0, nmax + 1)) + [k_ for k_ in range(nmax + 1, nprobe + 1) if nt <= 3]:
         try:
             cb = CellBasis(mt, E(), intorder=n)
         except NotImplementedError:
             out.count('order_not_tabulated')
             continue
+        if n > nmax:
+            out.count('orders_beyond_the_bound_served_and_judged')
         monos = monomials_of_degree(dim, n) + ([(0,) * dim] if n > 0 else [])
         sub_bases = {}
         for mono in monos:
